@@ -9,7 +9,7 @@ from common import Cmat, Cx, R, Rmat, cfl, fl, flmat, max_rel_err
 
 from common import wiring_pre_build as pre_build  # noqa: E402,F401
 
-LEAN_MODULES = ["PyomaVerif.Props.C01", "PyomaVerif.Props.WiringRun", "PyomaVerif.Props.C01C11", "PyomaVerif.Props.C01E2E", "PyomaVerif.Props.C01Stored", "PyomaVerif.Props.WiringCalls", "PyomaVerif.Props.C01Table", "PyomaVerif.Props.C03Table", "PyomaVerif.Props.C01TableLegacy", "PyomaVerif.Props.C01Excite"]
+LEAN_MODULES = ["PyomaVerif.Props.C01", "PyomaVerif.Props.WiringRun", "PyomaVerif.Props.C01C11", "PyomaVerif.Props.C01E2E", "PyomaVerif.Props.C01Stored", "PyomaVerif.Props.WiringCalls", "PyomaVerif.Props.C01Table", "PyomaVerif.Props.C03Table", "PyomaVerif.Props.C01TableLegacy", "PyomaVerif.Props.C01Excite", "PyomaVerif.Props.C01Args", "PyomaVerif.Mutants.C01Args"]
 THEOREMS = [
     # the exact sequence of core-routine calls of the run()/mpe() body and the exact set of parameters bound at each (regenerated call table)
     "PV.WiringCalls.C12_ssidat_run_calls",
@@ -106,9 +106,32 @@ THEOREMS = [
     "PV.C01TableLegacy.ExStep.fast_3_2",
     "PV.C01TableLegacy.ExStep.legacy_3_2",
     "PV.C01TableLegacy.ExStep.step_boundary",
+    # depth round 2 (g05): SSI_fast as ONE model function `fastSSI` (l DERIVED from the row count of U1 and br; the matrices handed
+    # to np.linalg.qr / inv FORMED by the model and compared with the recorded call arguments), the pinv arguments of the legacy
+    # routine; the subjects of the contracts QrC / PinvC of the table theorems are those arguments
+    "PV.Poles.fastLoop_spec",
+    "PV.Poles.legacyArgLoop_spec",
+    "PV.C01Args.fastSSI_args",
+    "PV.C01Args.fastSSI_get",
+    "PV.C01Args.fastQrArg_eq",
+    "PV.C01Args.fastInvArgs_get",
+    "PV.C01Args.legacyPinvArgs_get",
+    "PV.C01Args.legacyPinvArgs_step_zero",
+    "PV.C01Args.C01_e2e_cov_table_whole",
+    "PV.C01Args.C01_e2e_dat_table_whole",
+    "PV.C01Args.Ex.whole_ok",
+    "PV.C01Args.Ex.table",
+    "PV.C01Args.ExDat.table",
+    # mutants: l from the COLUMN count, inv of the TRANSPOSED block, pinv of the whole factor -- each changes an argument / a list
+    "PV.Mutants.C01Args.l_from_columns_differs",
+    "PV.Mutants.C01Args.inv_of_transpose_differs",
+    "PV.Mutants.C01Args.pinv_of_whole_factor_differs",
 ]
 RULE = (
-    "correspondence: ssi.SSI_fast (also its list-building loop with step 1..3), ssi.SSI (also as ONE model function `legacySSI`: Nch, the loop "
+    "correspondence: ssi.SSI_fast (also its list-building loop with step 1..3; also as ONE model function `fastSSI` that derives l from H.shape and br "
+    "and forms the arguments of np.linalg.qr / inv, compared with the recorded call arguments entry by entry, step 0..3, ordmax beyond the factors "
+    "incl. ValueError / LinAlgError; the arguments of np.linalg.pinv in ssi.SSI likewise, and the recorded pinv result = np.linalg.pinv(argument) "
+    "with the default cut-off), ssi.SSI (also as ONE model function `legacySSI`: Nch, the loop "
     "with step 0..3, ordmax beyond the recorded factors incl. the ValueError of a tall H; its lists fed to SSI_poles with the same step: "
     "IndexError from both for ordmax > step >= 2, also through SSIcov/SSIdat.run), ssi.ac2mp and ssi.SSI_poles as one model function "
     "(table VALUES cell by cell incl. Lambds, NaN pattern, shapes, step != 1 incl. the exception class, the matrices handed to "
@@ -259,6 +282,7 @@ def _poles_case(ctx, ssi, stream, Obs, A, C, ordmax, dt, step, key, unc=None):
         ctx.skipped += 1
         ctx.count("poles_skipped_nonfinite_pole")
         return
+    _eig_contract(ctx, eigs)
     uj = None
     if unc is not None:
         uj = dict(Q1=Rmat(unc[0]), Q2=Rmat(unc[1]), Q3=Rmat(unc[2]), OO=[Rmat(o) for (_a, o) in invs], pi=R(np.pi), dt=R(dt))
@@ -300,6 +324,94 @@ def _poles_case(ctx, ssi, stream, Obs, A, C, ordmax, dt, step, key, unc=None):
     ctx.corr(stream, bool(ok), inp, None, None, key)
 
 
+def _same_to_rounding(M, ref, shape, rtol=1e-15):
+    """model matrix (exact rationals, already converted) against the recorded float argument: same shape, every entry within one
+    rounding (the model forms U[i,j]*sqrt(s_j) exactly, numpy rounds that product once)"""
+    ref = np.asarray(ref)
+    if tuple(shape) != ref.shape:
+        return False
+    if ref.size == 0:
+        return True
+    Mf = np.array(flmat(M), dtype=float).reshape(ref.shape)
+    return bool(np.all(np.abs(Mf - ref) <= rtol * np.abs(ref)))
+
+
+def _eig_contract(ctx, eigs):
+    """the recorded scipy.linalg.eig outputs satisfy the eigen-equation the theorems assume (EigOf.eq) to rounding:
+    A V = V diag(lam), relative to |A| (columns of V have unit norm)"""
+    for (a, out) in eigs:
+        Aa = np.asarray(a[0], dtype=float)
+        if Aa.size == 0:
+            continue
+        lam, _lv, rv = out
+        if not (np.all(np.isfinite(lam)) and np.all(np.isfinite(rv))):
+            continue
+        sc = max(np.abs(Aa).sum(axis=1).max(), 1e-300)
+        ctx.contract("eig", np.abs(Aa @ rv - rv * lam).max() / sc, 1e-10, "A V = V diag(lam) (right eigenvectors of scipy.linalg.eig)")
+
+
+def _fast_whole_case(ctx, ssi, H, br, ordmax, step, key):
+    """ssi.SSI_fast(H, br, ordmax, step) against the model function `fastSSI` (driver op ssi_fast_whole), which DERIVES the number
+    of channels l = int(H.shape[0]/(br+1)) and FORMS the LAPACK arguments: exception class; Obs; the matrix handed to
+    np.linalg.qr (entry by entry, one rounding); the matrices handed to the successive np.linalg.inv calls (exact: slices of the
+    recorded R); number, shapes and values of the list entries A, C.  The recorded inverses satisfy the contract QrC.inv."""
+    svds, qrs, invs = [], [], []
+    try:
+        with record(np.linalg, "svd", svds), record(np.linalg, "qr", qrs), record(np.linalg, "inv", invs):
+            Obs, A, C, *_ = ssi.SSI_fast(H, br, ordmax, step)
+        raised = None
+    except (ValueError, IndexError, ZeroDivisionError) as e:  # LinAlgError is a ValueError
+        raised = type(e).__name__
+        if "ingular" in str(e):  # inv of an exactly singular block: no recorded result to hand to the model
+            ctx.skipped += 1
+            ctx.count("fast_whole_skipped_singular")
+            return
+    if not svds:
+        ctx.skipped += 1
+        return
+    stream = "ssi.SSI_fast[whole,args]"
+    U, SIG, _Vt = svds[0][1]
+    Q, Rm = (qrs[0][1] if qrs else (np.zeros((0, 0)), np.zeros((0, 0))))
+    mat = lambda x: Rmat(x) if np.asarray(x).size else []  # noqa: E731
+    m = ctx.model("ssi_fast_whole", U=Rmat(U), sq=[R(v) for v in np.sqrt(SIG)], Q=mat(Q), R=mat(Rm),
+                  Rinv=[mat(np.asarray(o)) for (_a, o) in invs], br=br, ordmax=ordmax, step=step)
+    inp = {"H": H.tolist(), "br": br, "ordmax": ordmax, "step": step}
+    if raised is not None or "raises" in m:
+        ctx.count(f"fast_whole_raises_{raised}")
+        ctx.corr(stream, m.get("raises") == raised, inp, m.get("raises"), raised, key + ("raises", raised))
+        return
+    why = None
+    if not _same_to_rounding(m["Obs"], Obs, m["shapeObs"]):
+        why = "Obs"
+    elif len(qrs) != 1 or len(qrs[0][0]) != 1 or not _same_to_rounding(m["qrarg"], qrs[0][0][0], m["shapeQr"]):
+        why = "qr-argument"
+    elif len(invs) != len(m["invargs"]) or len(m["A"]) != len(A) or len(m["C"]) != len(C) or len(A) != len(invs):
+        why = "number of passes"
+    for k in range(len(A)):
+        if why:
+            break
+        a0 = invs[k][0]
+        if len(a0) != 1 or not _same_to_rounding(m["invargs"][k], a0[0], m["shapesInv"][k], rtol=0.0):
+            why = f"inv-argument of pass {k}"
+        elif tuple(m["shapesA"][k]) != A[k].shape or tuple(m["shapesC"][k]) != C[k].shape:
+            why = f"shape of list entry {k}"
+        elif A[k].size:
+            n_ = A[k].shape[0]
+            Ri = np.asarray(invs[k][1])
+            tol = 1e-12 + 1e-13 * n_ * np.abs(Ri).max() * np.abs(Obs).max() * Obs.shape[0] / max(np.abs(A[k]).max(), 1e-300)
+            if max_rel_err(np.array(flmat(m["A"][k])).reshape(A[k].shape), A[k]) > tol:
+                why = f"A[{k}]"
+            elif max_rel_err(np.array(flmat(m["C"][k])).reshape(C[k].shape), C[k]) > 1e-12:
+                why = f"C[{k}]"
+            Ra = np.asarray(a0[0], dtype=float)
+            with np.errstate(all="ignore"):
+                cond = np.linalg.cond(Ra)
+            if np.isfinite(cond) and cond < 1e12:
+                ctx.contract("inv", np.abs(Ri @ Ra - np.eye(n_)).max() / max(cond, 1.0), 1e-13, "inv(R[:n,:n]) R[:n,:n] = I (relative to the condition number)")
+    ctx.count(f"fast_whole_refs_{'eq' if H.shape[0] == H.shape[1] else 'ne'}_channels")
+    ctx.corr(stream, why is None, inp, why, None, key)
+
+
 def _legacy_lists_case(ctx, ssi, H, br, ordmax, step, key):
     """ssi.SSI(H, br, ordmax, step) against the model function `legacySSI` (driver op ssi_legacy_lists): the exception class,
     the number of list entries, every shape, every value of A (rounding of the product pinv·Obs[Nch:]) and of C.  Returns the
@@ -337,6 +449,26 @@ def _legacy_lists_case(ctx, ssi, H, br, ordmax, step, key):
             ok = max_rel_err(np.array(flmat(m["A"][k])).reshape(A[k].shape), A[k]) <= tol
             ok = ok and max_rel_err(np.array(flmat(m["C"][k])).reshape(C[k].shape), C[k]) <= 1e-12
     ctx.corr("ssi.SSI[lists,step]", bool(ok), inp, None, None, key)
+    # ---- the matrices handed to np.linalg.pinv are the ones the model forms (`legacyPinvArgs`), and what came back is what
+    # np.linalg.pinv gives for them with its default cut-off (the contract PinvC is about THAT function) and a left inverse
+    ma = ctx.model("ssi_legacy_args", U=Rmat(U), sq=[R(v) for v in np.sqrt(SIG)], br=br, ordmax=ordmax, step=step)
+    why = None
+    if "raises" in ma or len(ma["pinvargs"]) != len(pinvs):
+        why = "number of passes"
+    for k in range(len(pinvs)):
+        if why:
+            break
+        a0 = pinvs[k][0]
+        if len(a0) != 1 or not _same_to_rounding(ma["pinvargs"][k], a0[0], ma["shapes"][k]):
+            why = f"pinv-argument of pass {k}"
+        elif P[k].size:
+            arg = np.asarray(a0[0], dtype=float)
+            ref = np.linalg.pinv(arg)
+            ctx.contract("pinv_default", np.abs(P[k] - ref).max() / max(np.abs(ref).max(), 1e-300), 1e-12, "the recorded result is np.linalg.pinv(argument) with the default cut-off")
+            sv = np.linalg.svd(arg, compute_uv=False)
+            if arg.shape[0] >= arg.shape[1] and sv[-1] > 1e-10 * sv[0]:
+                ctx.contract("pinv", np.abs(P[k] @ arg - np.eye(arg.shape[1])).max() * sv[-1] / sv[0], 1e-13, "pinv(O) O = I for full column rank (relative to the condition number)")
+    ctx.corr("ssi.SSI[pinv args]", why is None, inp, why, None, key)
     return A, C
 
 
@@ -535,6 +667,13 @@ def correspondence(ctx):
                     okl = okl and max_rel_err(np.array(flmat(ml["C"][kk])).reshape(l, n_), C_s[kk]) <= 1e-12
             ctx.corr("ssi.SSI_fast[lists,step]", bool(okl), {"H": H.tolist(), "br": br, "ordmax": om2, "step": s1}, None, None, ("lists", l, om2, s1))
         _poles_case(ctx, ssi, "ssi.SSI_poles[step]", Obs_s, A_s, C_s, om2, S.dt, s2, ("step", om2, s1, s2))
+        # ---- SSI_fast as ONE model function: l derived from H.shape, the arguments of qr / inv formed by the model
+        _fast_whole_case(ctx, ssi, H, br, om2, s1, ("fast-whole", l, len(ref), om2, s1))
+        _fast_whole_case(ctx, ssi, H, br, ordmax, 1, ("fast-whole", l, len(ref), ordmax, 1))
+        if k % 3 == 1:
+            # ordmax beyond the recorded factors / beyond the rows of O_p (ValueError of np.dot, LinAlgError of inv), step = 0
+            _fast_whole_case(ctx, ssi, H, br, min(H.shape) + rng.randint(-1, 2), rng.choice([1, 2]), ("fast-beyond", H.shape[0] > H.shape[1]))
+            _fast_whole_case(ctx, ssi, H, br, om2, 0, ("fast-step0",))
         # ---- the legacy routine as ONE model function (Nch, loop with step, clipping of the slices, recorded pinv)
         _legacy_lists_case(ctx, ssi, H, br, om2, s1, ("legacy-lists", l, om2, s1))
         if k % 3 == 0:
